@@ -153,3 +153,26 @@ Definition m_reset_maxopen (req_max sys_limit curr_opened : Z) (slots : list (op
 (** the list compaction of the code before the repair *)
 Definition m_reset_compacting (alloc : Z) (slots : list (option Z)) : list (option Z) :=
   resize (filter (fun o => match o with Some _ => true | None => false end) slots) (Z.to_nat alloc).
+
+(** hfile.c Hseek (ordinary element): the new position, or FAIL.  The origin arithmetic [offset += posn] /
+    [offset += data_len] is int32. *)
+Definition m_hseek (appendable : bool) (origin offset posn data_len : Z) : option Z :=
+  let app := if appendable then 1 else 0 in
+  let off1 := if origin =? DF_CURRENT then hseek_from_current offset posn
+              else if origin =? DF_END then hseek_from_end offset data_len else offset in
+  if truth (hseek_stays off1 posn) then Some posn
+  else if truth (hseek_out_of_range off1 app data_len) then None
+  else Some off1.
+
+(** hchunks.c HMCPchunkwrite: the ref of a new chunk comes from Htagnewref(DFTAG_CHUNK); 0 = DFE_NOREF *)
+Definition m_chunk_ref (next : Z) : option Z :=
+  let r := match m_tagnewref next with Some r => r | None => 0 end in
+  if truth (chunkwrite_no_ref r) then None else Some r.
+
+(** vio.c vpackvs (no attributes): number of bytes packed; every name is preceded by its length as int16 and the
+    buffer pointer advances by that int16 value *)
+Definition m_vpackvs_size (fnames : list Z) (namelen classlen : Z) : Z :=
+  let n := Z.of_nat (length fnames) in
+  2 + 4 + 2 + 2
+  + (if 0 <? n then 4 * (2 * n) + fold_right (fun l acc => acc + (2 + vpackvs_fieldname_len16 l)) 0 fnames else 0)
+  + (2 + vpackvs_name_len16 namelen) + (2 + vpackvs_class_len16 classlen) + (2 + 2) + (2 + 2) + (2 + 2) + 1.
